@@ -31,6 +31,10 @@ import vlib
 LEVEL = "exploration"
 
 DEVIATIONS = {
+    "RotateNearPoleNegativeY":
+        "corecel rotate() (F-ROT-1): step direction within sin(theta) < 0.005 of the z axis with negative y: "
+        "the Cerenkov cone is built about the mirrored axis",
+
     "ScintNonPositiveWavelength":
         "ScintillationGenerator samples the wavelength from an untruncated Gaussian: a component with "
         "lambda_mean - 8.6 lambda_sigma <= 0 yields photons of negative energy",
@@ -217,7 +221,7 @@ def run(ctx):
                              "oracle_decided": ORACLE_DECIDED})
         return
 
-    nshards = 12 if q else 90
+    nshards = 10 if q else 90
     nsteps = 8000 if q else 10000
     maxphot = 6
     budget_s = 80 if q else 8 * 60
